@@ -1,4 +1,5 @@
 import HexProofs.Numeric.AvgExtra
+import HexProofs.Numeric.SeriesInputsHMA
 import HexProofs.Numeric.SeriesInputsAvg
 import HexProofs.Numeric.Composite
 import HexProofs.Numeric.SeriesMore
@@ -635,5 +636,22 @@ example : ∃ vs : List (Val ℚ), vs.length = demoForeign.length ∧
       (j < 2 → vs.getD j .none = .none) ∧ (2 ≤ j → SmaOK 2 4 demoX (j - 2) (vs.getD j .none)) :=
   C04_FULL_partial_holds ℚ 2 "SMA_2" "EMA_2" 4 2 demoForeign demoX (by norm_num) (by decide) (by decide)
     (demoForeign_abs "SMA_2" (by decide) (by decide) (by decide)) demoForeign_in demoForeign_none
+
+/-- **HMA over a late-starting foreign input, every candle list** (the HMA item of `C04_FULL`, with the
+`None` hypothesis): `HmaOK` of `hma_series`, shifted by `t0`; nothing else changes -/
+theorem C04_HMA_inputs_holds : Numeric.C04HmaInputsStatement := Numeric.c04_hma_inputs
+
+/-- … exact rows: candle `j` of the result is input candle `j` carrying the row of `hma_series` at
+`j − t0` (`hmaOut`), only `None` readings before `t0` -/
+theorem C04_HMA_inputs_rows {K : Type} [Field K] [LinearOrder K] [IsStrictOrderedRing K] [LawfulPyF K]
+    (p : Nat) (hp : 2 ≤ p) (nm input : String) (n t0 : Nat) (cs : List (Candle K))
+    (r : Nat → Num K) (hn : HmaNames nm) (hi : hmaI_Input nm input) (habs : ∀ c ∈ cs, hmaI_Absent nm c)
+    (hnone : ∀ j, j < cs.length → j < t0 → readingByCandle (cs.getD j default) input = .none)
+    (hnum : ∀ j, j < cs.length → t0 ≤ j → readingByCandle (cs.getD j default) input = .num (r (j - t0))) :
+    ∃ out : List (Candle K), engineCalc (mkTop (.hma (p : Int) input : Kind K) nm n) cs = .ok out ∧
+      out.length = cs.length ∧
+      ∀ j, j < cs.length →
+        out.getD j default = hmaOut nm n (cs.getD j default) (hmaI_row p t0 (fun k => (r k).toF) j) :=
+  Numeric.hmaI_rows p hp nm input n t0 cs r hn hi habs hnone hnum
 
 end Hex.C04
